@@ -1,5 +1,5 @@
-(** C18 down to framebuffer pixels: definitions for the (not yet proved) composition of the terminal
-    model with the model of VesaFbConsole (Console/Vesa.v, C19).  Definitions only. *)
+(** C18 down to framebuffer pixels: definitions for the composition of the terminal model with the
+    model of VesaFbConsole (Console/Vesa.v, C19); proofs in Tty/VtVesaProofs.v.  Definitions only. *)
 From Coq Require Import NArith List Bool.
 From FF Require Import Lib.Word Console.Mem Console.Ops Console.Grid Console.Vesa Console.VesaSpec.
 From FF Require Import Tty.Vt Tty.VtSpec Tty.VtCons.
@@ -40,9 +40,9 @@ Definition byte_shows (c : vesa) (f : font) (d : depth) (m : fbuf) (v : vt) (i :
       end
   end.
 
-(** byte [i] lies outside the text grid: row padding, logo rows, margins right of / below the grid *)
-Definition outside_grid (c : vesa) (f : font) (i : N) : Prop :=
-  match place_of c i with
-  | Padding => True
-  | PixelByte X Y _ => cell_of c f X Y = None
-  end.
+(** bytes no console call of the terminal may change: the padding between pixel rows and the logo
+    rows above the text area.  (The pixels right of the last text column are moved vertically by
+    VesaFbConsole.Scroll together with the text — C19_vesa_scroll_rows — so they are not in this
+    set.) *)
+Definition protected (c : vesa) (i : N) : Prop :=
+  match place_of c i with Padding => True | PixelByte _ Y _ => Y < offsetY c end.
